@@ -228,7 +228,7 @@ def item_class(t, ident, label):
 def run(tier):
     v = Verdict("C06", "translation_validation", tier)
     cli = common.build_cli()
-    rounds = 1 if tier == "quick" else 8
+    rounds = 1 if tier == "quick" else 24
     programs = 0
     disagreements_checked = 0
     for rno in range(rounds):
